@@ -97,7 +97,7 @@ pub fn join_rule(
 }
 
 /// Given a rule, a set of all facts, and a binding that matches some premise
-fn join_remaining(
+pub(crate) fn join_remaining(
     rule: &Rule,
     changed_idx: usize,
     all_facts: &HashSet<Triple>,
